@@ -309,3 +309,107 @@ func (w *World) liftTo(fn *ssa.Function, in ssa.Instruction) ssa.Instruction {
 	}
 	return cur
 }
+
+// ---------------------------------------------------------------------------
+// effectively constant package-level tables (dispatch through a map of functions)
+
+type tableEntry struct {
+	Key string // constant key (string constants only)
+	Val ssa.Value
+}
+
+// constMapTable: if g is a package-level map that is built once by the package initialiser from constant keys and never
+// updated anywhere else, its entries; otherwise nil.
+func (w *World) constMapTable(g *ssa.Global) []tableEntry {
+	if w.tables == nil {
+		w.tables = map[*ssa.Global][]tableEntry{}
+		w.tablesDone = map[*ssa.Global]bool{}
+	}
+	if w.tablesDone[g] {
+		return w.tables[g]
+	}
+	w.tablesDone[g] = true
+	var mk *ssa.MakeMap
+	nStores := 0
+	ok := true
+	for _, f := range w.Funcs {
+		allInstrs(f, func(in ssa.Instruction) {
+			switch x := in.(type) {
+			case *ssa.Store:
+				if x.Addr == ssa.Value(g) {
+					nStores++
+					m, isMk := x.Val.(*ssa.MakeMap)
+					if f.Name() != "init" || !isMk {
+						ok = false
+					}
+					mk = m
+				}
+			case *ssa.MapUpdate:
+				if u, isLoad := x.Map.(*ssa.UnOp); isLoad && u.X == ssa.Value(g) {
+					ok = false // updated through the variable after initialisation
+				}
+			case *ssa.Call:
+				if b, isB := x.Call.Value.(*ssa.Builtin); isB && b.Name() == "delete" {
+					if u, isLoad := x.Call.Args[0].(*ssa.UnOp); isLoad && u.X == ssa.Value(g) {
+						ok = false
+					}
+				}
+			}
+		})
+	}
+	if !ok || nStores != 1 || mk == nil {
+		return nil
+	}
+	var out []tableEntry
+	for _, rf := range *mk.Referrers() {
+		mu, isMU := rf.(*ssa.MapUpdate)
+		if !isMU {
+			continue
+		}
+		k, isS := stringConst(mu.Key)
+		if !isS {
+			return nil
+		}
+		out = append(out, tableEntry{k, mu.Value})
+	}
+	w.tables[g] = out
+	return out
+}
+
+// tableLookup: v is (an element of) a lookup in an effectively constant map table → the table and the key value.
+func (w *World) tableLookup(v ssa.Value) ([]tableEntry, *ssa.Lookup) {
+	if ex, ok := v.(*ssa.Extract); ok && ex.Index == 0 {
+		v = ex.Tuple
+	}
+	lk, ok := v.(*ssa.Lookup)
+	if !ok {
+		return nil, nil
+	}
+	u, ok := lk.X.(*ssa.UnOp)
+	if !ok {
+		return nil, nil
+	}
+	g, ok := u.X.(*ssa.Global)
+	if !ok {
+		return nil, nil
+	}
+	t := w.constMapTable(g)
+	if t == nil {
+		return nil, nil
+	}
+	return t, lk
+}
+
+// funcOfValue: the function a function value denotes (top-level function, closure literal, bound method).
+func funcOfValue(v ssa.Value) *ssa.Function {
+	switch x := v.(type) {
+	case *ssa.Function:
+		return x
+	case *ssa.MakeClosure:
+		f, _ := x.Fn.(*ssa.Function)
+		return f
+	case *ssa.ChangeType:
+		return funcOfValue(x.X)
+	}
+	return nil
+}
